@@ -26,6 +26,38 @@ class _File(io.StringIO):
         return False
 
 
+class _FdFile(io.StringIO):
+    """A file object over a descriptor obtained from os.open: it writes
+    into the existing content at the descriptor's position, so what the
+    content is afterwards depends on the flags the file was opened with
+    (O_TRUNC or not), as on a real file system."""
+
+    def __init__(self, fs, fd, mode):
+        st = fs.fds[fd]
+        super().__init__(fs.files.get(st['path'], '') if 'r' in mode or
+                         not st['trunc'] else '')
+        self.seek(0, 2 if st['append'] else 0)
+        self._fs, self._fd, self._mode = fs, fd, mode
+
+    def truncate(self, size=None):
+        return super().truncate(size)
+
+    def close(self):
+        if not self.closed:
+            st = self._fs.fds.pop(self._fd, None)
+            if st is not None and ('w' in self._mode or 'a' in self._mode
+                                   or '+' in self._mode):
+                self._fs.files[st['path']] = self.getvalue()
+                self._fs.writes += 1
+                self._fs.mtime_ns[st['path']] = \
+                    (1_700_000_000 + self._fs.writes) * 1_000_000_000
+        super().close()
+
+    def __exit__(self, *a):
+        self.close()
+        return False
+
+
 class _OsPath:
     def __init__(self, fs, real):
         self._fs, self._real = fs, real
@@ -50,6 +82,68 @@ class _Os:
         self.path = _OsPath(fs, real.path)
         self._real = real
         self.stat = fs.stat
+        self._fs = fs
+
+    # descriptor-level calls (os.open / fdopen / write / close / replace)
+    def open(self, path, flags, mode=0o777, *a, **kw):
+        real = self._real
+        fs = self._fs
+        if path not in fs.files:
+            if not flags & real.O_CREAT:
+                raise FileNotFoundError(path)
+            fs.files[path] = ''
+        elif flags & real.O_CREAT and flags & real.O_EXCL:
+            raise FileExistsError(path)
+        fd = fs.next_fd
+        fs.next_fd += 1
+        if flags & real.O_TRUNC:
+            fs.files[path] = ''
+        fs.fds[fd] = {'path': path, 'trunc': bool(flags & real.O_TRUNC),
+                      'append': bool(flags & real.O_APPEND), 'pos': 0}
+        return fd
+
+    def fdopen(self, fd, mode='r', *a, **kw):
+        if fd not in self._fs.fds:
+            return self._real.fdopen(fd, mode, *a, **kw)
+        return _FdFile(self._fs, fd, mode)
+
+    def write(self, fd, data):
+        st = self._fs.fds.get(fd)
+        if st is None:
+            return self._real.write(fd, data)
+        text = data.decode() if isinstance(data, (bytes, bytearray)) else data
+        cur = self._fs.files[st['path']]
+        pos = len(cur) if st['append'] else st['pos']
+        self._fs.files[st['path']] = cur[:pos] + text + cur[pos + len(text):]
+        st['pos'] = pos + len(text)
+        return len(data)
+
+    def ftruncate(self, fd, n):
+        st = self._fs.fds.get(fd)
+        if st is None:
+            return self._real.ftruncate(fd, n)
+        self._fs.files[st['path']] = self._fs.files[st['path']][:n]
+
+    def fsync(self, fd):
+        if fd not in self._fs.fds:
+            return self._real.fsync(fd)
+
+    def close(self, fd):
+        st = self._fs.fds.pop(fd, None)
+        if st is None:
+            return self._real.close(fd)
+        self._fs.writes += 1
+        self._fs.mtime_ns[st['path']] = \
+            (1_700_000_000 + self._fs.writes) * 1_000_000_000
+
+    def replace(self, src, dst):
+        fs = self._fs
+        if src not in fs.files:
+            raise FileNotFoundError(src)
+        fs.files[dst] = fs.files.pop(src)
+        fs.mtime_ns[dst] = fs.mtime_ns.pop(src, 1_700_000_000 * 10 ** 9)
+
+    rename = replace
 
     def remove(self, p):
         if p not in self.path._fs.files:
@@ -63,6 +157,8 @@ class _Os:
 class SimFS:
     def __init__(self):
         self.files = {}
+        self.fds = {}
+        self.next_fd = 1000
         self.mtime_ns = {}
         self.writes = 0
         self.reads = 0
@@ -79,7 +175,9 @@ class SimFS:
                                ns, ns, ns))
 
     def open(self, path, mode='r', *a, **kw):
-        if 'r' in mode:
+        if isinstance(path, int):          # open(fd, ...)
+            return _FdFile(self, path, mode)
+        if 'r' in mode and '+' not in mode:
             if path not in self.files:
                 raise FileNotFoundError(path)
             self.reads += 1
